@@ -6,12 +6,15 @@ package main
 
 import (
 	"bufio"
+	"crypto/sha256"
 	"encoding/binary"
+	"encoding/hex"
 	"fmt"
 	"io"
 	"os"
 	"os/exec"
 	"path/filepath"
+	"sort"
 	"strconv"
 	"strings"
 	"time"
@@ -149,6 +152,7 @@ type wuffsBuild struct {
 	exe     string
 	cleanup func()
 	note    string
+	cached  bool
 }
 
 // toolsError: cmd/wuffs or cmd/wuffs-c (the compiler, outside this property's anchors) do not build.
@@ -218,7 +222,107 @@ func genStdSubset(repo string) (sb *hlib.StdBuild, note string, err error) {
 	return sb, note, nil
 }
 
-func buildWuffsDriver(repo string, opt string) (*wuffsBuild, error) {
+// driverCacheKey hashes everything the driver binary is a function of: the sources of the Wuffs compiler
+// (the Go packages cmd/wuffs and cmd/wuffs-c depend on, inside the repo, with their embedded C files), all
+// of std/, the driver's C source, the optimisation flag and the C compiler's version.
+func driverCacheKey(repo, opt string) (string, error) {
+	o, e, err := hlib.RunCmd(3*time.Minute, repo, nil, nil, "go", "list", "-deps", "-f", "{{.Dir}}", "./cmd/wuffs", "./cmd/wuffs-c")
+	if err != nil {
+		return "", fmt.Errorf("go list: %v %s", err, e)
+	}
+	root, err := filepath.EvalSymlinks(repo)
+	if err != nil {
+		return "", err
+	}
+	dirs := map[string]bool{filepath.Join(root, "std"): true}
+	for _, d := range strings.Fields(string(o)) {
+		if rd, err := filepath.EvalSymlinks(d); err == nil && strings.HasPrefix(rd, root+string(filepath.Separator)) {
+			dirs[rd] = true
+		}
+	}
+	var files []string
+	for d := range dirs {
+		filepath.Walk(d, func(p string, info os.FileInfo, err error) error {
+			if err == nil && info.Mode().IsRegular() {
+				files = append(files, p)
+			}
+			return nil
+		})
+	}
+	sort.Strings(files)
+	h := sha256.New()
+	prev := ""
+	for _, f := range files {
+		if f == prev {
+			continue
+		}
+		prev = f
+		b, err := os.ReadFile(f)
+		if err != nil {
+			return "", err
+		}
+		fmt.Fprintf(h, "%s\x00%d\x00", strings.TrimPrefix(f, root), len(b))
+		h.Write(b)
+	}
+	for _, f := range []string{"go.mod", "go.sum"} {
+		b, _ := os.ReadFile(filepath.Join(root, f))
+		h.Write(b)
+	}
+	v, _, _ := hlib.RunCmd(time.Minute, "", nil, nil, "gcc", "--version")
+	fmt.Fprintf(h, "\x00%s\x00%s\x00", opt, v)
+	h.Write([]byte(cDriverSrc))
+	return hex.EncodeToString(h.Sum(nil))[:24], nil
+}
+
+// buildWuffsDriver generates std/lzma + std/xz from the working tree and compiles the driver. The binary
+// is a pure function of its inputs (see driverCacheKey), so it is kept under <work>/cache-c17/<key>/ and
+// reused when nothing it depends on has changed (saves 1.5 to 3 minutes per run on a loaded machine).
+func buildWuffsDriver(repo string, opt string, cacheRoot string) (*wuffsBuild, error) {
+	key := ""
+	if cacheRoot != "" {
+		if k, err := driverCacheKey(repo, opt); err == nil {
+			key = k
+			exe := filepath.Join(cacheRoot, key, "c17drv")
+			if st, err := os.Stat(exe); err == nil && st.Mode().IsRegular() {
+				now := time.Now()
+				os.Chtimes(filepath.Join(cacheRoot, key), now, now)
+				return &wuffsBuild{exe: exe, cleanup: func() {}, cached: true}, nil
+			}
+		}
+	}
+	wb, err := buildWuffsDriverUncached(repo, opt)
+	if err == nil && key != "" && wb.note == "" {
+		// publish (atomically) and evict all but the 6 most recently used entries
+		dir := filepath.Join(cacheRoot, key)
+		if os.MkdirAll(dir, 0o755) == nil {
+			if b, e := os.ReadFile(wb.exe); e == nil {
+				tmp := filepath.Join(dir, fmt.Sprintf("c17drv.tmp.%d", os.Getpid()))
+				if os.WriteFile(tmp, b, 0o755) == nil {
+					os.Rename(tmp, filepath.Join(dir, "c17drv"))
+				}
+			}
+		}
+		if ents, e := os.ReadDir(cacheRoot); e == nil && len(ents) > 6 {
+			type ent struct {
+				name string
+				t    time.Time
+			}
+			var es []ent
+			for _, x := range ents {
+				if i, e := x.Info(); e == nil {
+					es = append(es, ent{x.Name(), i.ModTime()})
+				}
+			}
+			sort.Slice(es, func(a, b int) bool { return es[a].t.After(es[b].t) })
+			for _, x := range es[6:] {
+				os.RemoveAll(filepath.Join(cacheRoot, x.name))
+			}
+		}
+	}
+	return wb, err
+}
+
+func buildWuffsDriverUncached(repo string, opt string) (*wuffsBuild, error) {
 	sb, note, err := genStdSubset(repo)
 	if err != nil {
 		return nil, err
